@@ -30,7 +30,7 @@ def exhaustive(tier):
 
 def required(tier):
     return {"pair_laws": 100000, "pow_laws": 2000, "triple_laws": 10000, "hash_eq_checks": 100000,
-            "snapshots_compared": 100000, "container_invariant_evals": 100000, "pi_sets": 200,
+            "snapshots_compared": 100000, "container_invariant_evals": 100000, "pi_sets": 200, "pi_sets_all_dimensionless": 10,
             "layers": 6}
 
 
@@ -511,14 +511,28 @@ def run_pi(spec, rec, rng, pint, pintload):
     names = [c for c in gen.canonical_units(m) if m.root(c)[2]]
     ureg = pintload.registry()
     small = [c for c in names if len(m.root(c)[2]) <= 3]
+    bydim = {}
+    for c in small:
+        bydim.setdefault(tuple(sorted(m.root(c)[2].items())), []).append(c)
+    same_dim = [v for k, v in sorted(bydim.items()) if len(v) >= 2]
     for i in range(spec["n"]):
-        nv = rng.randint(2, 6)
+        nv = rng.randint(1 if i % 7 == 0 else 2, 6)
         # few base dimensions so that the null space is usually non-trivial
         pool = rng.sample(small, 4)
         variables = {}
+        # boundary: variables that are dimensionless ratios of two units of one dimension
+        # (every variable in one iteration out of ten: the dimensionality matrix is then empty)
+        mode = rng.random()
         for j in range(nv):
-            d = gen.compound(rng, pool, 1, 2, exps=(-2, -1, 1, 2))
+            if mode < 0.1 or (mode < 0.3 and rng.random() < 0.4):
+                a, b = rng.sample(rng.choice(same_dim), 2)
+                d = {a: F(1), b: F(-1)}
+                rec.count("pi_dimensionless_variables")
+            else:
+                d = gen.compound(rng, pool, 1, 2, exps=(-2, -1, 1, 2))
             variables[f"V{j}"] = d
+        if mode < 0.1:
+            rec.count("pi_sets_all_dimensionless")
         strs = {k: gen.render_units(d) for k, d in variables.items()}
         dims = {k: m.dimvec(d) for k, d in variables.items()}
         alld = sorted({x for d in dims.values() for x in d})
